@@ -38,7 +38,8 @@ func baseContent() content {
 // onlyComp is a requester whose verdict for the probe hosts of comp is a
 // function of comp's version alone.
 func onlyComp(base *requester, comp string) *requester {
-	q := *base
+	qq := *base
+	q := &qq
 	q.Profile = nil
 	q.Name = base.Name + "/only-" + comp
 	q.RuleLists = nil
@@ -58,7 +59,7 @@ func onlyComp(base *requester, comp string) *requester {
 	case "newreg":
 		q.SafeBrows = &filter.ConfigSafeBrowsing{Enabled: true, NewlyRegisteredDomainsEnabled: true}
 	}
-	return &q
+	return q.fix()
 }
 
 func compHost(comp string, j int) string {
@@ -184,12 +185,12 @@ func oneStraddle(r *vkit.Run, s *srv, e *env, reqs []*requester, c *content, idx
 		}
 		return ask(e, q, 0, query{Host: host, QType: qt}, 4242)
 	}
-	class := fmt.Sprintf("straddle|%s|added=%v|direct=%v|mid=%v|%s", kind, added, direct, withMid, dns.TypeToString[qt])
+	class := fmt.Sprintf("straddle|%s|added=%v|direct=%v|mid=%v|%s", kind, added, direct, withMid, dns.Type(qt).String())
 	var steps []string
 	logf := func(f string, a ...any) { steps = append(steps, fmt.Sprintf(f, a...)) }
 	witness := func(extra map[string]any) map[string]any {
 		w := map[string]any{
-			"phase": "straddle", "case_index": idx, "hash_filter": kind, "host": host, "qtype": dns.TypeToString[qt],
+			"phase": "straddle", "case_index": idx, "hash_filter": kind, "host": host, "qtype": dns.Type(qt).String(),
 			"version_before": vOld, "version_after": vNew, "host_listed_before": !added, "host_listed_after": added,
 			"through": map[bool]string{true: "hashprefix.Filter.FilterRequest", false: "filterstorage.Default.ForConfig(...).FilterRequest"}[direct],
 			"steps":   steps,
